@@ -145,7 +145,7 @@ def run_trees(seed, trials):
                     else:
                         cdw = rng.choice([d for d in (8, 16, 32) if d < dw]); ratio = dw // cdw; lg = ratio.bit_length() - 1
                         cw = rng.randint(lg + 1 if lg + 1 <= aw + lg else 1, aw + lg)
-                        cm, cexp = gen(0, cw, cdw, leaf_align=rng.choice([lg, lg + 1])); sparse = False
+                        cm, cexp = gen(0, cw, cdw, leaf_align=rng.choice([max(lg - 1, 0), lg, lg, lg + 1, lg + 1])); sparse = False
                     cnt[0] += 1; wname = rng.choice([None, f"w{cnt[0]}"])
                     # a small resource first, so that dense windows can land on addresses that are not multiples of their size
                     s, e, r = m.add_window(cm, name=wname, sparse=sparse, addr=rng.choice([None, None, None, 0]))
@@ -157,7 +157,7 @@ def run_trees(seed, trials):
         return m, exp
     problems = []
     for t in range(trials):
-        aw = rng.randint(2, 7); dw = rng.choice([8, 16, 32])
+        aw = rng.randint(2, 7); dw = rng.choice([8, 16, 32, 32, 24])      # 24: ratio 3 over 8-bit children (must be refused)
         m, exp = gen(rng.randint(0, 3), aw, dw)
         exp.sort(key=lambda x: x[2])
         desc = f"seed={seed} trial={t} aw={aw} dw={dw}"
